@@ -36,6 +36,7 @@ def generate(seed, tier):
         d['fs'][p0]['content']['size'] = g.int(3000, 30000)
         d['fs'][p0]['records'] = [g.pick([500, 1000, 2000])]
         ops.insert(0, {'op': 'pull', 'path': p0, 'dest': 'failing', 'fail_after': g.int(0, 3)})
+    total = sum(S.sync_stream_size(d, op['path']) for op in ops)      # what crosses the wire, record headers included
     for plan in d['cut_plans']:
         if plan['policy'] == 'one' and total > 3000:
             plan['policy'] = 'straddle'
